@@ -11,14 +11,18 @@
 (***************************************************************************)
 EXTENDS Rat, FiniteSets, TLC
 
-(* determinant of a k x k rational matrix given as function on 1..k x 1..k, k <= 3 *)
+(* determinant of a k x k rational matrix given as function on 1..k x 1..k (closed forms up to 3, Laplace expansion above) *)
+RECURSIVE Det(_, _)
 Det(M, k) ==
     IF k = 0 THEN One
     ELSE IF k = 1 THEN M[1][1]
     ELSE IF k = 2 THEN RSub(RMul(M[1][1], M[2][2]), RMul(M[1][2], M[2][1]))
-    ELSE RAdd(RSub(RMul(M[1][1], RSub(RMul(M[2][2], M[3][3]), RMul(M[2][3], M[3][2]))),
+    ELSE IF k = 3 THEN
+         RAdd(RSub(RMul(M[1][1], RSub(RMul(M[2][2], M[3][3]), RMul(M[2][3], M[3][2]))),
                    RMul(M[1][2], RSub(RMul(M[2][1], M[3][3]), RMul(M[2][3], M[3][1])))),
               RMul(M[1][3], RSub(RMul(M[2][1], M[3][2]), RMul(M[2][2], M[3][1]))))
+    ELSE LET Minor(c) == [i \in 1 .. k - 1 |-> [j \in 1 .. k - 1 |-> M[i + 1][IF j < c THEN j ELSE j + 1]]]
+         IN  RSumSeq([c \in 1 .. k |-> RMul(IF c % 2 = 1 THEN M[1][c] ELSE RNeg(M[1][c]), Det(Minor(c), k - 1))])
 
 (* ordered list of a set of indices *)
 RECURSIVE SetToSeq(_)
